@@ -78,14 +78,14 @@ ALL = [
     H('aead_ids_and_sizes_table', ['C02', 'C12']),
     H('x25519_dh_zero_check', ['C10', 'C03']),
     H('write_exact_x25519', ['C12']),
-    H('x25519_from_bytes_full', ['C12', 'C13']),
+    H('x25519_from_bytes_full', ['C12', 'C13', 'C10']),
     H('x25519_decap_zero_dh_rejected', ['C10', 'C13'], timeout=1500),
     H('x25519_encap_zero_dh_rejected', ['C10', 'C13'], timeout=1500),
     H('x25519_dhkem_kdf_inputs', ['C03', 'C07', 'C08', 'C02'], tier='thorough', timeout=1500),
     H('write_exact_x25519_wrong_len_panics', ['C12'], tier='thorough'),
     H('nist_sk_from_bytes_p256', ['C09', 'C12'], timeout=1500),
-    H('nist_sk_from_bytes_p384', ['C09', 'C12'], features='p384,p521', timeout=3000),
-    H('nist_sk_from_bytes_p521', ['C09'], features='p384,p521', timeout=3000),
+    H('nist_sk_from_bytes_p384', ['C09', 'C12'], features='p384,p521', timeout=900),
+    H('nist_sk_from_bytes_p521', ['C09'], features='p384,p521', timeout=900),
 ]
 
 
@@ -203,7 +203,8 @@ def playback(h):
                '--concrete-playback=inplace', '--harness', h['name'], '--output-format', 'terse']
         if h['features']:
             cmd += ['--features', h['features']]
-        subprocess.run(cmd, cwd=sc, capture_output=True, text=True, timeout=h['timeout'], env=env)
+        # trace extraction can take far longer than the proof itself: give it 5 minutes, then report without concrete input
+        subprocess.run(cmd, cwd=sc, capture_output=True, text=True, timeout=min(300, h['timeout']), env=env)
         tests = []
         for root, _, fs in os.walk(os.path.join(sc, 'src')):
             for f in fs:
